@@ -26,8 +26,8 @@ CONSTANTS MAXW, IMAXW, ARENA
 
 Take(s, n) == SubSeq(s, 1, n)
 Drop(s, n) == SubSeq(s, n + 1, Len(s))
-Min(a, b) == IF a <= b THEN a ELSE b
-Max(a, b) == IF a >= b THEN a ELSE b
+Min2(a, b) == IF a <= b THEN a ELSE b
+Max2(a, b) == IF a >= b THEN a ELSE b
 RangeOf(s) == {s[i] : i \in DOMAIN s}
 Has(r, f) == f \in DOMAIN r
 
@@ -115,7 +115,7 @@ Exp(S, e) ==
     [] e.op = "b_try_into_mut" ->
          IF Ret(e) = 1 THEN Res("ok", n :> v, {h}) ELSE Same
     [] e.op = "m_split_off" ->
-         IF x <= pv.cap THEN Res("ok", (h :> Take(v, Min(x, len))) @@ (n :> Drop(v, Min(x, len))), {}) ELSE Panics
+         IF x <= pv.cap THEN Res("ok", (h :> Take(v, Min2(x, len))) @@ (n :> Drop(v, Min2(x, len))), {}) ELSE Panics
     [] e.op = "m_resize" ->
          IF x <= len THEN Res("ok", h :> Take(v, x), {})
          ELSE IF x <= IMAXW THEN Res("ok", h :> v \o [i \in 1..(x - len) |-> e.args.val], {})
